@@ -54,3 +54,26 @@ Definition batch_has_write (g : ghost) (b : list bmsg) : bool :=
 
 (** no activity pin: the feature is off or both caches are cold *)
 Definition is_quiet (act : activity) : Prop := a_init act = false /\ forall i, a_hot act i = false.
+
+(** * Concrete statements used by the Examples and the refutation witness *)
+Definition cfg_split (preads : bool) : settings :=
+  {| s_parser := true; s_splitting := true; s_primary_reads := preads; s_default_role := None |}.
+Definition st_replica : rstate := {| active_role := Some Replica; o_parser := None; o_preads := None |}.
+
+Definition sel : query := MkQuery [] [] (BSelect false) false.                 (* SELECT 1 *)
+Definition sel_for_update : query := MkQuery [] [] (BSelect false) true.       (* SELECT .. FOR UPDATE *)
+Definition sel_into : query := MkQuery [] [] (BSelect true) false.             (* SELECT * INTO t2 FROM t *)
+Definition insert_cte : query :=                                               (* WITH x AS (INSERT .. RETURNING ..) SELECT .. FROM x *)
+  MkQuery [MkQuery [] [] BInsert false] [] (BSelect false) false.
+Definition paren_lock : query := MkQuery [] [] (BNested sel_for_update) false. (* (SELECT .. FOR UPDATE) *)
+Definition cte_lock : query := MkQuery [sel_for_update] [] (BSelect false) false. (* WITH x AS (SELECT .. FOR UPDATE) SELECT .. *)
+Definition derived_lock : query := MkQuery [] [sel_for_update] (BSelect false) false. (* SELECT * FROM (SELECT .. FOR UPDATE) s *)
+Definition union_into : query := MkQuery [] [] (BSetOp (BSelect true) (BSelect false)) false. (* SELECT * INTO t2 FROM t UNION SELECT .. *)
+Definition with_insert : query := MkQuery [sel] [] BInsert false.              (* WITH x AS (SELECT 1) INSERT INTO t SELECT * FROM x *)
+Definition read_cte_union : query :=                                           (* WITH x AS (SELECT 1) (SELECT ..) UNION VALUES (1) *)
+  MkQuery [sel] [sel] (BSetOp (BNested sel) BValues) false.
+
+Definition role_after (preads : bool) (ss : list stmt) : option role :=
+  active_role (fst (infer (cfg_split preads) st_replica ss)).
+
+Definition st_primary : rstate := {| active_role := Some Primary; o_parser := None; o_preads := None |}.
